@@ -246,7 +246,7 @@ func (f *function) evaluate() (data string, changed bool, err error) {
 
 	var buf bytes.Buffer
 	b64 := base64.NewEncoder(base64.StdEncoding, &buf)
-	if err := pickle.NewEncoder(b64, pickle.PicklerFunc(envPickler)).Encode(f.function); err != nil {
+	if err := pickle.NewEncoder(b64, newEnvPickler()).Encode(f.function); err != nil {
 		return "", false, err
 	}
 	b64.Close()
@@ -290,18 +290,39 @@ func (f *function) load() error {
 // pickler.
 func functionEnv(f starlark.Callable) (starlark.Value, error) {
 	var buf bytes.Buffer
-	if err := pickle.NewEncoder(&buf, pickle.PicklerFunc(envPickler)).Encode(f); err != nil {
+	if err := pickle.NewEncoder(&buf, newEnvPickler()).Encode(f); err != nil {
 		return nil, err
 	}
 	return pickle.NewDecoder(&buf, pickle.UnpicklerFunc(envUnpickler)).Decode()
 }
 
-// envPickler provides support for pickling functions and modules.
+// An envPickler provides support for pickling functions and modules.
 //
-// - Builtins are pickled as (NEWOBJ "dawn" "Builtin" ())
-// - Function code is pickled as (NEWOBJ "dawn" "FunctionCode" (module, globals, bytecode))
-// - Functions are pickled as (NEWOBJ "dawn" "Function" (defaults, freevars, code)).
-func envPickler(x starlark.Value) (module, name string, args starlark.Tuple, err error) {
+//   - Builtins are pickled as (NEWOBJ "dawn" "Builtin" ())
+//   - Function code is pickled as (NEWOBJ "dawn" "FunctionCode" (module, globals, bytecode))
+//   - Functions are pickled as (NEWOBJ "dawn" "Function" (defaults, freevars, code)).
+//   - A function that is reached again while it is being pickled (a recursive or mutually
+//     recursive function reaches itself through its globals) is pickled as
+//     (NEWOBJ "dawn" "RecursiveFunction" (name,)); the encoder only memoizes an object once
+//     its arguments have been written, so without this the encoder would never terminate.
+type envPickler struct {
+	// functions holds the functions whose pickling has begun. Once a function has been
+	// written the encoder's memo answers for it and the pickler is not consulted again.
+	functions map[*starlark.Function]struct{}
+}
+
+func newEnvPickler() *envPickler {
+	return &envPickler{functions: map[*starlark.Function]struct{}{}}
+}
+
+func (p *envPickler) Pickle(x starlark.Value) (module, name string, args starlark.Tuple, err error) {
+	if fn, ok := x.(*starlark.Function); ok {
+		if _, ok := p.functions[fn]; ok {
+			return "dawn", "RecursiveFunction", starlark.Tuple{starlark.String(fn.Name())}, nil
+		}
+		p.functions[fn] = struct{}{}
+	}
+
 	switch x := x.(type) {
 	case *function:
 		return "dawn", "Target", starlark.Tuple{starlark.String(x.label.String())}, nil
@@ -331,7 +352,7 @@ func envUnpickler(module, name string, args starlark.Tuple) (starlark.Value, err
 	}
 
 	switch name {
-	case "Target":
+	case "Target", "RecursiveFunction":
 		if len(args) != 1 {
 			return nil, fmt.Errorf("expcted 1 arg, got %v", len(args))
 		}
